@@ -17,6 +17,7 @@ pub mod spec;
 pub mod src;
 pub mod dom;
 pub mod stubs;
+pub mod s6;
 
 pub mod c01;
 pub mod c02;
